@@ -2,7 +2,12 @@
 # Runs the repository's own test suite (guard off: there are no hooks) and prints a pass/fail summary.
 export GOFLAGS=-mod=mod GOPROXY=off GOSUMDB=off GOTOOLCHAIN=local
 out=${1:-/tmp/baseline.json}
-cd /repo && go test -json -vet=off -count=1 -timeout 25m ./... > "$out" 2>&1
+# a private network namespace keeps the cluster tests' fixed ports (127.0.0.x:8080) away from other runs
+if unshare -n true 2>/dev/null; then
+  unshare -n sh -c "ip link set lo up; cd /repo && go test -json -vet=off -count=1 -timeout 25m ./..." > "$out" 2>&1
+else
+  cd /repo && go test -json -vet=off -count=1 -timeout 25m ./... > "$out" 2>&1
+fi
 python3 - "$out" <<'PY'
 import json,sys
 p=f=0; failed=[]
